@@ -262,6 +262,9 @@ func verifModelBinaryWrite(w io.Writer, order binary.ByteOrder, data any) error 
 //@ thin
 //@ requires sb != nil && w != nil && len(sb.mem) <= 0x3fffffffffffff00
 //@ propagates err from (*bufWriter).Write, persistFooter, (*bufio.Writer).Flush [C17]
+//@ assert (*bufWriter).Write#1 : $in == sb.mem [C04]
+//@ assert persistFooter#1 : $numDocs == sb.numDocs && $storedIndexOffset == sb.storedIndexOffset && $fieldsIndexOffset == sb.fieldsIndexOffset && $sectionsIndexOffset == sb.sectionsIndexOffset && $docValueOffset == sb.docValueOffset && $chunkMode == sb.chunkMode && $crcBeforeFooter == sb.memCRC [C04]
+//@ assert persistFooter#1 : typeis($writerIn, ptr_bufWriter) && payload($writerIn) == br [C04]
 //@ local ensures err == nil ==> !bwDirty(br.w) && !bwErr(br.w) && bwFlushedTo(br.w) == wrBytes(br.w) [C17]
 //@ ensures err == nil ==> n == len(sb.mem) + 52 [C04,C17]
 //@ ensures $liveFiles == old($liveFiles) && (forall r ref :: fileOpen(r) == old(fileOpen(r)) && fileSynced(r) == old(fileSynced(r)))
@@ -272,6 +275,7 @@ func verifModelBinaryWrite(w io.Writer, order binary.ByteOrder, data any) error 
 //@ thin
 //@ requires sb != nil && !fsExists(path) && len(sb.mem) <= 0x3fffffffffffff00
 //@ propagates err from os.OpenFile, persistSegmentBaseToWriter, (*os.File).Sync, (*os.File).Close [C17]
+//@ assert persistSegmentBaseToWriter#1 : $sb == sb [C04]
 //@ ensures err != nil ==> !fsExists(path) [C17]
 //@ ensures $liveFiles == old($liveFiles) [C17]
 //@ local ensures err == nil ==> fsExists(path) && fileSynced(f) && !fileOpen(f) [C17]
@@ -281,6 +285,7 @@ func verifModelBinaryWrite(w io.Writer, order binary.ByteOrder, data any) error 
 //@ thin
 //@ requires sb != nil && len(sb.mem) <= 0x3fffffffffffff00
 //@ ensures w == nil ==> err != nil [C17]
+//@ assert persistSegmentBaseToWriter#1 : $sb == sb && $w == w [C04]
 //@ propagates err from persistSegmentBaseToWriter [C17]
 //@ end
 
@@ -288,6 +293,7 @@ func verifModelBinaryWrite(w io.Writer, order binary.ByteOrder, data any) error 
 //@ thin
 //@ requires sb != nil && !fsExists(path) && len(sb.mem) <= 0x3fffffffffffff00
 //@ ensures err != nil ==> !fsExists(path) [C04,C17]
+//@ assert PersistSegmentBase#1 : $sb == sb && $path == path [C04]
 //@ propagates err from PersistSegmentBase [C17]
 //@ end
 
@@ -296,10 +302,13 @@ func verifModelBinaryWrite(w io.Writer, order binary.ByteOrder, data any) error 
 //@ func mergeSegmentBases returns (newDocNums, size, err)
 //@ thin
 //@ requires !fsExists(path)
+//@ requires dropsInRange(segmentBases, drops)
 //@ propagates err from os.OpenFile, mergeToWriter, persistFooter, (*bufio.Writer).Flush, (*os.File).Sync, (*os.File).Close [C17,C18,C19]
+//@ assert persistFooter#1 : typeis($writerIn, ptr_CountHashWriter) && payload($writerIn) == cr && $crcBeforeFooter == cr.crc && $chunkMode == chunkMode && $numDocs == numDocs && $storedIndexOffset == storedIndexOffset && $sectionsIndexOffset == sectionsIndexOffset && $fieldsIndexOffset == sectionsIndexOffset && $docValueOffset == 0 [C04,C05]
 //@ ensures err != nil ==> !fsExists(path) [C17,C18,C19]
 //@ ensures $liveFiles == old($liveFiles) [C17,C18]
 //@ local ensures err == nil ==> fsExists(path) && fileSynced(f) && !fileOpen(f) && !bwDirty(br) && !bwErr(br) && bwFlushedTo(br) == wrBytes(br) [C17,C18]
+//@ local ensures err == nil ==> size == uint64(cr.n) [C05]
 //@ ensures old(chanClosed(closeCh)) ==> err != nil [C18]
 //@ local ensures old(chanClosed(closeCh)) && f != nil ==> err == seg.ErrClosed [C18]
 //@ ensures chanClosed(closeCh) ==> err != nil [C18]
@@ -308,7 +317,12 @@ func verifModelBinaryWrite(w io.Writer, order binary.ByteOrder, data any) error 
 //@ func mergeToWriter returns (newDocNums, numDocs, storedIndexOffset, fieldsInv, fieldsMap, sectionsIndexOffset, err)
 //@ thin
 //@ requires cr != nil
+//@ requires dropsInRange(segments, drops)
 //@ propagates err from mergeStoredAndRemap, Merge, persistFieldsSection [C17,C18,C19]
+//@ ensures err == nil ==> len(newDocNums) == len(segments) [C05]
+//@ assert persistFieldsSection#1 : len($fieldsInv) >= 2 ==> cr.n >= 1 [C05]
+//@ assert computeNewDocCount#1 : $segments == segments && $drops == drops [C05]
+//@ assert mergeStoredAndRemap#1 : $newSegDocCount == numDocs && $segments == segments && $drops == drops && $w == cr [C05]
 //@ ensures old(chanClosed(closeCh)) ==> err == seg.ErrClosed [C18]
 //@ ensures chanClosed(closeCh) && !old(chanClosed(closeCh)) ==> err == seg.ErrClosed [C18]
 //@ ensures old(chanClosed(closeCh)) ==> chanClosed(closeCh)
@@ -323,6 +337,8 @@ func verifModelBinaryWrite(w io.Writer, order binary.ByteOrder, data any) error 
 //@ ensures old(chanClosed(closeCh)) ==> chanClosed(closeCh)
 //@ propagates err from copyStoredDocs, visitStoredFields, writeUvarints, (*CountHashWriter).Write, persistStoredFieldValues [C17]
 //@ ensures $poolBalance == old($poolBalance) [C11]
+//@ ensures err == nil ==> len(rv) == len(segments) [C05]
+//@ loop 1 invariant len(rv) == $k && $k <= len(segments) [C05]
 //@ loop 1 invariant chanClosed(closeCh) == old(chanClosed(closeCh)) [C18]
 //@ loop 1 invariant poolOwned(vdc) && $poolBalance == old($poolBalance) + 1 [C11]
 //@ loop 3 invariant poolOwned(vdc) && $poolBalance == old($poolBalance) + 1 [C11]
@@ -632,6 +648,7 @@ func (s *verifSink) Write(p []byte) (int, error) {
 }
 
 //@ func (*verifSink).Write returns (n, err)
+//@ harness
 //@ requires s != nil
 //@ ensures n == len(p) && err == nil
 //@ ensures len(s.buf) == old(len(s.buf)) + len(p)
@@ -714,3 +731,104 @@ func lemmaOneWrite(v uint64, u uint32, body []byte) {
 	_ = binary.Write(sink, binary.BigEndian, v+1)
 	verifAssert(binary.BigEndian.Uint64(sink.buf[n:n+8]) == v)
 }
+
+// ---- C04: constructor arguments vs footer fields ----
+
+//@ func InitSegmentBase returns (sb, err)
+//@ thin
+//@ tags [C04]
+//@ local ensures err == nil ==> sb != nil
+//@ assert (*SegmentBase).updateSize#1 : $sb.numDocs == numDocs && $sb.chunkMode == chunkMode && $sb.memCRC == memCRC && $sb.storedIndexOffset == storedIndexOffset && $sb.sectionsIndexOffset == sectionsIndexOffset && $sb.fieldsIndexOffset == sectionsIndexOffset && $sb.docValueOffset == 0 && $sb.mem == mem
+//@ end
+
+// ---- C05: document count, renumbering, stored-data carry over ----
+
+// nsurv(k): survivors among the first k segments = sum of (numDocs_i - |drops_i|), nil bitmap = nothing dropped
+//@ specfunrec nsurv(S rowref, so int, D rowref, do int, ND u64arr, BS setarr, k int) int = ite(k <= 0, 0, nsurv(S, so, D, do, ND, BS, k-1) + int(ND[S[so+k-1]]) - ite(D[do+k-1] != nil, sCard(BS[D[do+k-1]]), 0))
+
+//@ func computeNewDocCount returns (n)
+//@ tags [C05]
+//@ requires len(drops) >= len(segments) && len(segments) <= 0x7fffffff
+//@ requires forall i int :: 0 <= i && i < len(segments) ==> segments[i] != nil && segments[i].numDocs <= 0xffffffff
+//@ requires forall i int :: 0 <= i && i < len(segments) && drops[i] != nil ==> sCard(bmSet(drops[i])) <= int(segments[i].numDocs)
+//@ modifies nothing
+//@ ensures int(n) == nsurv(row(segments), off(segments), row(drops), off(drops), fieldarr(SegmentBase.numDocs), ghostarr(bmSet), len(segments))
+//@ loop 1 invariant 0 <= $k && $k <= len(segments)
+//@ loop 1 invariant int(newDocCount) == nsurv(row(segments), off(segments), row(drops), off(drops), fieldarr(SegmentBase.numDocs), ghostarr(bmSet), $k)
+//@ loop 1 invariant int(newDocCount) <= $k * 4294967296
+//@ end
+
+//@ lemma lemmaUvLenRange
+//@ mode bv
+//@ tags [C01,C02,C05,C09]
+//@ ensures 1 <= uvLen(row(a), off(a)+o) && uvLen(row(a), off(a)+o) <= 10
+//@ end
+func lemmaUvLenRange(a []byte, o int) {}
+
+// stored-field record of document d (layout L.stored): index entry be64 at storedIndexOffset+8d -> record offset;
+// record = uvarint(metaLen) uvarint(dataLen) meta data
+//@ pred storedOff(s, d) = be64(row(s.mem), off(s.mem) + int(s.storedIndexOffset) + 8*int(d))
+//@ pred storedOffI(s, i) = be64(row(s.mem), off(s.mem) + int(s.storedIndexOffset) + 8*i)
+//@ pred chwOK(c) = c != nil && c.w != nil && (typeis(c.w, ptr_CountHashWriter) ==> ptr_CountHashWriter(payload(c.w)) != c && ptr_CountHashWriter(payload(c.w)).w != nil && !typeis(ptr_CountHashWriter(payload(c.w)).w, ptr_CountHashWriter) && !typeis(ptr_CountHashWriter(payload(c.w)).w, ptr_bufWriter)) && (typeis(c.w, ptr_bufWriter) ==> ptr_bufWriter(payload(c.w)).w != nil)
+//@ pred dropsInRange(segments, drops) = len(drops) >= len(segments) && len(segments) <= 0x7fffffff && (forall i int :: 0 <= i && i < len(segments) ==> segments[i] != nil && segments[i].numDocs <= 0xffffffff) && (forall i int :: 0 <= i && i < len(segments) && drops[i] != nil ==> sCard(bmSet(drops[i])) <= int(segments[i].numDocs))
+//@ pred storedMetaLenLen(s, d) = uvLen(row(s.mem), off(s.mem) + int(storedOff(s, d)))
+//@ pred storedWF(s, d) = s.storedIndexOffset <= 0x3fffffffffffffff && d <= 0x0fffffffffffffff && storedOff(s, d) <= 0x3fffffffffffff00 && int(s.storedIndexOffset) + 8*int(d) + 8 <= len(s.mem) && int(storedOff(s, d)) + 20 <= len(s.mem) && uvOK(row(s.mem), off(s.mem) + int(storedOff(s, d))) && uvOK(row(s.mem), off(s.mem) + int(storedOff(s, d)) + storedMetaLenLen(s, d))
+
+//@ func (*SegmentBase).getDocStoredOffsets returns (indexOffset, storedOffset, n, metaLen, dataLen)
+//@ tags [C02,C05,C09]
+//@ requires s != nil
+//@ wf requires storedWF(s, docNum)
+//@ modifies nothing
+//@ ensures indexOffset == s.storedIndexOffset + 8*docNum
+//@ ensures storedOffset == storedOff(s, docNum)
+//@ ensures metaLen == uvVal(row(s.mem), off(s.mem) + int(storedOffset))
+//@ ensures int(n) == storedMetaLenLen(s, docNum) + uvLen(row(s.mem), off(s.mem) + int(storedOffset) + storedMetaLenLen(s, docNum))
+//@ ensures dataLen == uvVal(row(s.mem), off(s.mem) + int(storedOffset) + storedMetaLenLen(s, docNum))
+//@ ensures 2 <= n && n <= 20
+//@ end
+
+//@ func (*SegmentBase).getDocStoredMetaAndCompressed returns (meta, data)
+//@ tags [C02,C09]
+//@ requires s != nil
+//@ wf requires storedWF(s, docNum)
+//@ wf requires int(storedOff(s, docNum)) + 20 + int(uvVal(row(s.mem), off(s.mem) + int(storedOff(s, docNum)))) + int(uvVal(row(s.mem), off(s.mem) + int(storedOff(s, docNum)) + storedMetaLenLen(s, docNum))) <= len(s.mem)
+//@ wf requires uvVal(row(s.mem), off(s.mem) + int(storedOff(s, docNum))) <= 0x3fffffffffffff00 && uvVal(row(s.mem), off(s.mem) + int(storedOff(s, docNum)) + storedMetaLenLen(s, docNum)) <= 0x3fffffffffffff00
+//@ modifies nothing
+//@ ensures base(meta) == base(s.mem) && base(data) == base(s.mem)
+//@ ensures int(len(meta)) == int(uvVal(row(s.mem), off(s.mem) + int(storedOff(s, docNum))))
+//@ ensures int(len(data)) == int(uvVal(row(s.mem), off(s.mem) + int(storedOff(s, docNum)) + storedMetaLenLen(s, docNum)))
+//@ ensures off(meta) == off(s.mem) + int(storedOff(s, docNum)) + storedMetaLenLen(s, docNum) + uvLen(row(s.mem), off(s.mem) + int(storedOff(s, docNum)) + storedMetaLenLen(s, docNum))
+//@ ensures off(data) == off(meta) + len(meta)
+//@ end
+
+//@ func (*SegmentBase).copyStoredDocs returns (err)
+//@ tags [C05]
+//@ requires s != nil && w != nil
+//@ wf requires s.numDocs >= 1 ==> storedWF(s, 0) && storedWF(s, s.numDocs - 1) && s.numDocs <= 0x0fffffffffffffff
+//@ wf requires s.numDocs >= 1 ==> storedOff(s, 0) <= storedOff(s, s.numDocs - 1)
+//@ wf requires s.numDocs >= 1 ==> int(storedOff(s, s.numDocs - 1)) + 20 + int(uvVal(row(s.mem), off(s.mem) + int(storedOff(s, s.numDocs - 1)))) + int(uvVal(row(s.mem), off(s.mem) + int(storedOff(s, s.numDocs - 1)) + storedMetaLenLen(s, s.numDocs - 1))) <= len(s.mem)
+//@ wf requires s.numDocs >= 1 ==> uvVal(row(s.mem), off(s.mem) + int(storedOff(s, s.numDocs - 1))) <= 0x3fffffffffffff00 && uvVal(row(s.mem), off(s.mem) + int(storedOff(s, s.numDocs - 1)) + storedMetaLenLen(s, s.numDocs - 1)) <= 0x3fffffffffffff00
+//@ wf requires newDocNum <= 0x0fffffffffffffff && int(newDocNum) + int(s.numDocs) <= len(newDocNumOffsets)
+//@ wf requires w.n >= 0
+//@ wf requires chwOK(w)
+//@ requires base(newDocNumOffsets) != nil
+//@ ensures err == nil ==> forall i int :: 0 <= i && i < int(s.numDocs) ==> newDocNumOffsets[int(newDocNum) + i] == uint64(int(storedOffI(s, i)) - int(storedOff(s, 0)) + old(w.n))
+//@ ensures forall j int :: (j < off(newDocNumOffsets) + int(newDocNum) || j >= off(newDocNumOffsets) + int(newDocNum) + int(s.numDocs)) ==> row(newDocNumOffsets)[j] == old(row(newDocNumOffsets)[j])
+//@ ensures err == nil && old(w.n) <= 0x3fffffffffffffff && s.numDocs >= 1 ==> w.n == old(w.n) + int(storedOff(s, s.numDocs - 1)) - int(storedOff(s, 0)) + (storedMetaLenLen(s, s.numDocs - 1) + uvLen(row(s.mem), off(s.mem) + int(storedOff(s, s.numDocs - 1)) + storedMetaLenLen(s, s.numDocs - 1))) + int(uvVal(row(s.mem), off(s.mem) + int(storedOff(s, s.numDocs - 1)))) + int(uvVal(row(s.mem), off(s.mem) + int(storedOff(s, s.numDocs - 1)) + storedMetaLenLen(s, s.numDocs - 1)))
+//@ loop 1 invariant old(newDocNum) <= newDocNum && int(newDocNum) - int(old(newDocNum)) <= int(s.numDocs) && indexOffset == s.storedIndexOffset + 8*(newDocNum - old(newDocNum))
+//@ loop 1 invariant forall i int :: 0 <= i && i < int(newDocNum) - int(old(newDocNum)) ==> newDocNumOffsets[int(old(newDocNum)) + i] == uint64(int(storedOffI(s, i)) - int(storedOff(s, 0)) + int(storedOffset0New))
+//@ loop 1 invariant forall j int :: (j < off(newDocNumOffsets) + int(old(newDocNum)) || j >= off(newDocNumOffsets) + int(newDocNum)) ==> row(newDocNumOffsets)[j] == old(row(newDocNumOffsets)[j])
+//@ end
+
+//@ func mergeFields returns (same, rv)
+//@ tags [C05]
+//@ requires forall i int :: 0 <= i && i < len(segments) ==> segments[i] != nil
+//@ ensures len(rv) >= 1 && rv[0] == "_id"
+//@ loop 3 invariant len(rv) >= 1 && rv[0] == "_id" && fresh(rv) && base(rv) != nil
+//@ end
+
+//@ func mapFields returns (rv)
+//@ thin
+//@ tags [C05]
+//@ modifies alloc, maplen
+//@ end
